@@ -70,7 +70,7 @@ def no_api(err):
 
 # ====================================================================== Base58
 
-EXCLUDED = ["0", "O", "I", "l", " ", "\t", "\n", "\x00", "\x7f", "-", "_", "+", "/", "=", ".", "\xe9", "ı", "１", "K"]
+EXCLUDED = ["0", "O", "I", "l", " ", "\t", "\n", "\x00", "\x7f", "-", "_", "+", "/", "=", ".", "\xe9", "ı", "１", "K", "\ud800", "\udfff", "\U0001f600"]
 
 
 class Base58(Driver):
@@ -254,6 +254,10 @@ class Base58Check(Driver):
                     yield case, self.run(case)
             case = dict(s=text[:pos] + text[pos + 1:], kind="delete")
             yield case, self.run(case)
+        for ch in EXCLUDED:
+            for pos in sorted(set((0, 1, len(text) // 2, len(text)))):
+                case = dict(s=text[:pos] + ch + text[pos:], kind="insert-excluded")
+                yield case, self.run(case)
 
     def run(self, case):
         A, err = api()
@@ -467,6 +471,9 @@ def grid_string(hrp, ver, prog, spec, pad):
     return RB.bech32_encode(hrp, [ver] + syms, spec)
 
 
+CASELESS = [("?5", 15, "f14ea7f951"), ("-)", 5, "2bdfa517c5"), ("-8#", 5, "3c6bad")]
+
+
 class Grid(Driver):
     id = "C11.grid"
     rule = ("(hrp, version 0..16,17,31, program length 0..42, checksum constant, padding, letter case incl. every single-character "
@@ -506,6 +513,7 @@ class Grid(Driver):
         for i in range(len(self.struct_bases())):
             yield dict(fam="struct", i=i)
         yield dict(fam="shape")
+        yield dict(fam="caseless")
 
     def struct_bases(self):
         p20 = self.prog(20, "seed")
@@ -533,6 +541,16 @@ class Grid(Driver):
                         for mode in modes:
                             case = dict(kind="grid", hrp=hrp, ver=ver, prog=prog, spec=spec, pad=pad, mode=mode)
                             yield case, self.run(case)
+        elif fam == "caseless":
+            # valid addresses without a single cased character (letter-free human-readable part, data part made of the digit
+            # characters of the alphabet): "lower" and "upper" are the same string, and it is not mixed case
+            for hrp, ver, prog in CASELESS:
+                s = grid_string(hrp, ver, bytes.fromhex(prog), RB.BECH32M, "zero")
+                if s is None or s.lower() != s.upper():
+                    raise ModelInvalid("caseless vector %r has a cased character: %r" % ((hrp, ver, prog), s))
+                for mode in ("lower", "upper"):
+                    case = dict(kind="grid", hrp=hrp, ver=ver, prog=prog, spec=RB.BECH32M, pad="zero", mode=mode)
+                    yield case, self.run(case)
         elif fam == "enc":
             for ver in (0, 1, 16):
                 for n in (20, 32):
